@@ -16,8 +16,8 @@ from . import nmfu_child, cbuild, engine, sched, oracles, inputs as inputs_mod, 
 HERE = os.path.dirname(os.path.abspath(__file__))
 
 TIER = {
-    "quick": {"corpus_sets": 1, "gen": 150, "n_inputs": 5, "maxlen": 24, "n_sched": 3, "replicas": 4, "c20_sources": 90},
-    "thorough": {"corpus_sets": 4, "gen": 2500, "n_inputs": 10, "maxlen": 64, "n_sched": 6, "replicas": 6, "c20_sources": 1200},
+    "quick": {"corpus_sets": 1, "gen": 150, "n_inputs": 5, "maxlen": 24, "n_sched": 3, "replicas": 4, "c20_sources": 300},
+    "thorough": {"corpus_sets": 4, "gen": 2500, "n_inputs": 10, "maxlen": 64, "n_sched": 6, "replicas": 6, "c20_sources": 2500},
 }
 
 
@@ -91,6 +91,13 @@ def compare_replicas(builds, xs, root, uidx, n_sched, res, label, source, stream
             if crash is not None:
                 st["crashes"] += 1
                 engine._add_crash(res, crash, ctx, "replica:" + name)
+                if bi > 0 and ref_crash is None and crash[0] != "harness":
+                    # the reference replica completed this script: a replica that dies on it does not "parse the same"
+                    ctx2 = dict(ctx)
+                    ctx2["replicas"] = [builds[0][4], descr]
+                    ctx2["ref_script"] = traces[0][1][r]
+                    engine._add(res, oracles.V("L4", "replica-crashes-where-reference-completes", -1, 0,
+                                               "%s: %s ; %s completed the same script" % (name, crash[1], builds[0][0])), ctx2, "replica:" + name)
                 continue
             engine._account(st, run)
             for f in oracles.run_findings(run):
@@ -341,7 +348,11 @@ def tasks_c12(root, tier, tree):
             idx += 1
     for i in range(T["gen"]):
         idx = 100000 + i
-        p = workload.generated_unit(root, idx, bias={"strings": True, "oos": i % 2 == 0, "noindex": True}, stream="program-c12")
+        if i % 3 == 2:
+            # allocation lifecycle programs (deletes in every kind of place, then uses); no index reads, see DESIGN 8.3
+            p = workload.generated_unit(root, idx, stream="program-c12-life", lifecycle=True, noindex=True)
+        else:
+            p = workload.generated_unit(root, idx, bias={"strings": True, "oos": i % 2 == 0, "noindex": True}, stream="program-c12")
         unit = {"label": "gen:program-c12:%d" % idx, "source": p["source"], "base_argv": [], "need": p["need"],
                 "seeds": p["samples"], "canaries": p["canaries"], "_fn": c12_unit}
         tasks.append(("call", root, idx, unit, T))
@@ -361,7 +372,10 @@ def tasks_c20(root, tier, tree):
     while len(srcs) < T["c20_sources"]:
         idx = 100000 + i
         i += 1
-        p = workload.generated_unit(root, idx, stream="program-c20")
+        if i % 2 == 0:
+            p = workload.generated_unit(root, idx, stream="program-c20-regex", regexprog=True)
+        else:
+            p = workload.generated_unit(root, idx, stream="program-c20", bias={"rich": i % 4 == 1})
         srcs.append(("gen:program-c20:%d" % idx, p["source"], [], p["need"], p["samples"]))
     srcs = srcs[:max(T["c20_sources"], 1)]
     for idx, (label, src, base, need, seeds) in enumerate(srcs):
